@@ -42,9 +42,6 @@ package gc
 //@ spec srcsCovered(m targetMap, ks map[string]bool) bool = forall t *core.BuildTarget, i int :: \
 //@      in(t, m) && 0 <= i && i < len(t.AllLocalSourcePaths()) ==> ks[t.AllLocalSourcePaths()[i]]
 //
-//@ assume func publicDependencies
-//@   pure
-//
 //@ func targetsToRemove
 //@   requires graph != nil
 //@   opt panics=allowed
@@ -62,3 +59,19 @@ package gc
 //@   ensures kept_closed [C25]: closedK(graph, keepTargets)
 //@   ensures no_kept_source [C25]: forall k int, t *core.BuildTarget, i int :: 0 <= k && k < len(result1) && in(t, keepTargets) && \
 //@      0 <= i && i < len(t.AllLocalSourcePaths()) ==> result1[k] != t.AllLocalSourcePaths()[i]
+
+// publicDependencies looks through a dependency only when it is a private sub-target of the SAME rule (same
+// parent label as the target); every other dependency is returned as it is — so whatever a kept target needs
+// from outside its own rule is reported to the collector and kept as well.
+//@ func publicDependencies
+//@   pure
+//@   requires graph != nil && target != nil
+//@   opt nopanic=off
+//@   opt inline=off
+//@   opt precall=off
+//@   callsite publicDependencies only_through_sub_targets_of_the_same_rule [C25]: \
+//@      arg_graph == graph && arg_target == graph.Target(dep) && arg_target.Label.Parent() == target.Label.Parent()
+//@   invariant "range target.DeclaredDependencies()" outside_dependencies_are_returned [C25]: forall k int :: 0 <= k && k < idx ==> \
+//@      (graph.Target(target.DeclaredDependencies()[k]) != nil && \
+//@       graph.Target(target.DeclaredDependencies()[k]).Label.Parent() != target.Label.Parent() ==> \
+//@       (exists j int :: 0 <= j && j < len(ret) && ret[j] == graph.Target(target.DeclaredDependencies()[k])))
